@@ -374,6 +374,8 @@ def do_replay(ctx):
     ctx.cov["states"] = ctx.cov["transitions"] = 1
     ctx.sample(pl.get("human") or "replayed case")
     sigs = o.get("lost") or o.get("sigs") or ([o["sig"]] if not o.get("ok") else [])
+    if not o.get("ok"):
+        sigs = list(sigs) + [x["sig"] for x in (o.get("also") or [])]
     want = rp.get("signature")
     print("REPLAY result: ok=%s signatures=%s (stored signature %s)" % (o.get("ok"), sigs, want))
     for sg in sigs:
